@@ -315,7 +315,7 @@ def run(ctx):
     sigs = {}
     ctx.extra["divergence_signatures"] = sigs
     rng = ctx.rng
-    npairs = 300 if ctx.quick else 5000
+    npairs = 220 if ctx.quick else 5000
     todo = scenarios(rng)
     for k in range(npairs):
         g = sg.Gen(rng, glob=(rng.random() < 0.1))
